@@ -17,11 +17,10 @@ per execution), what ``pynguin.generator`` runs after a search on that suite:
 
 Oracle (``_C22_lib``; nothing is read from the chromosomes' caches): the original test cases (cloned
 before) and the minimized ones are executed afresh
-  * by a fresh real TestCaseExecutor: the covered line ids and branch outcomes (branch-less code objects
-    entered, predicate outcomes with distance 0) of the traces and the values of fresh real
-    TestSuiteLineCoverageFunction / TestSuiteBranchCoverageFunction must be equal before and after;
-  * on an uninstrumented copy of the subject under ``sys.monitoring``: the LINE and BRANCH events the
-    interpreter reports must be equal before and after;
+  * by a fresh real TestCaseExecutor: the values of fresh real TestSuiteLineCoverageFunction /
+    TestSuiteBranchCoverageFunction must be equal before and after (the property speaks of the coverage the
+    optimised coverage functions report; reaching the same number of goals through other goals is not a violation -
+    _C22_lib can also compare goal sets and interpreter events, which is not part of the verdict);
 and on the rendered source text:
   * there is a one-to-one assignment of the minimized test cases to original ones such that each is
     obtained from its original by deleting statements and dropping bindings (order kept, same value
@@ -70,7 +69,11 @@ def _case(tests, am, cfg, aspects) -> bool:
     return reach(L.untraced(L.run_case, tests, am, cfg // 2, cfg % 2, aspects))
 
 
-COV = (*L.COVERAGE, "statements")      # values, goals, truth + no foreign statement
+# The property is about the VALUES of the optimised coverage functions ("achieves exactly the coverage ... for every
+# optimised coverage function"): a minimized suite that reaches the same number of goals through other goals is not
+# a violation.  (_C22_lib can also compare goal sets and interpreter events - "goals", "truth" - which is stricter
+# than the statement and therefore not part of the verdict.)
+COV = ("values", "statements")         # coverage values + no foreign statement
 ASS = ("statements", "asserted")       # no foreign statement + asserted statements kept
 
 
@@ -216,6 +219,19 @@ def suite_deletes(size, a, b, c, am) -> bool:
 
 
 # ------------------------------------------------------------------------------------------------ one test case
+def swapv(size, a, b, c, cfg) -> bool:
+    """Region of the count-comparison finding at the level of coverage VALUES: CASE (cfg 0, 1) accepts a removal when
+    the single test case keeps its NUMBER of covered lines / outcomes; when the arm it now takes is one that another
+    test case of the suite covers anyway, the suite reaches fewer goals than before (SUITE / COMBINED compare the
+    coverage of the whole suite once more and restore)."""
+    size, a, b, c, cfg = realize((size, a, b, c, cfg))
+    if cfg > 1:
+        return False
+    tests = _suite(size, a, b, c)
+    before, after = _union(tests), _union([_without_the_bumps(t) for t in tests])
+    return (len(before[0]), len(before[1])) != (len(after[0]), len(after[1]))
+
+
 def h_cov_single(m: int, nmax: int, amax: int, n: int, k0: int, k1: int, k2: int, k3: int, am: int, cfg: int) -> bool:
     """
     pre: 1 <= m <= 11 and 1 <= n <= nmax <= 4 and 0 <= k0 < m and 0 <= k1 < m and 0 <= k2 < m and 0 <= k3 < m
